@@ -80,6 +80,8 @@ def generate(seed, tier, index):
         el = rng.choice(["E1", "E2"])
         match = rng.random() < 0.45
         evs.append({"t": t, "kind": kind, "el": el, "match": match, "n": serial})
+        if not match and rng.random() < 0.3:
+            evs[-1]["near"] = True  # a value that is a proper part of the awaited one ("M31" while waiting for "M31 tracking")
     # avoid event == timeout instant for any wait (ties are outside the property)
     bad = {w["start"] + w["timeout"] for w in waits if w["timeout"]}
     evs = [e for e in evs if e["t"] not in bad]
@@ -129,6 +131,8 @@ def _timeline(scen):
         derived = []
         if e["kind"] == "value":
             new = MV if e["match"] else f"u{e['n']}"
+            if e.get("near") and MV:
+                new = MV[: 1 + e["n"] % (len(MV) - 1)] if e["n"] % 2 else MV[1 + e["n"] % (len(MV) - 2):]
             if val[e["el"]] == new:
                 new = f"u{e['n']}"  # a repeated MATCH would not be a change: make it a unique non-match instead
             xml = f'<setTextVector device="D" name="V" state="{state}"><oneText name="{e["el"]}">{new}</oneText></setTextVector>\n'
